@@ -20,7 +20,7 @@ pub struct Decoded {
 }
 impl Decoded {
 	fn fail(e: impl Into<String>) -> Decoded {
-		Decoded { ok: false, err: e.into(), ..Default::default() }
+		Decoded { ok: false, err: e.into(), layout: json!({}), ..Default::default() }
 	}
 }
 
